@@ -1899,13 +1899,15 @@ Proof.
 Qed.
 Print Assumptions c17_first_trigger_is_first_needed.
 
-(* ---- (b) c17_first, conjunct 3: the irreversible number gate knows the constants 0/1 and 2,
-   not the first streamable block.  first = 1 (the ETH setting named in gates.go), target 0 < first,
+(* ---- (b) c17_first, conjunct 3, BEFORE the fix "IrreversibleBlockNumGate uses
+   GetProtocolFirstStreamableBlock" (finding C17-irrnum-first-streamable-constants; the statement is
+   now proved with `target < first`, `enum e = first`): the irreversible number gate AS SHIPPED knows
+   the constants 0/1 and 2, not the first streamable block.  first = 1 (the ETH setting named in gates.go), target 0 < first,
    exclusive: the trigger is the irreversible event of block 1 = first, and it is dropped. *)
 Theorem c17_irrnum_first_constants_needed :
   exists first target incl maxhold l i e,
     target < first /\ first_at (T_irrnum target) l i /\ nth_error l i = Some e /\ enum e = first /\
-    fw_of (irrnum_gate_step target maxhold) (g_init incl) l <> skipn i l /\
+    fw_of (irrnum_gate_step_unfixed target maxhold) (g_init incl) l <> skipn i l /\
     (* whereas the plain number gate, same setting, same stream, forwards everything *)
     fw_of (num_gate_step first target maxhold) (g_init incl) l = skipn i l.
 Proof.
@@ -1919,7 +1921,7 @@ Print Assumptions c17_irrnum_first_constants_needed.
 Theorem c17_irrnum_first_constants_needed_5 :
   let l := [c17_irr 5; c17_irr 6] in
   3 < 5 /\ first_at (T_irrnum 3) l 0 /\
-  fw_of (irrnum_gate_step 3 15000%Z) (g_init false) l = [c17_irr 6] /\
+  fw_of (irrnum_gate_step_unfixed 3 15000%Z) (g_init false) l = [c17_irr 6] /\
   fw_of (num_gate_step 5 3 15000%Z) (g_init false) l = l.
 Proof.
   split; [reflexivity|]. split; [apply first_index_some; vm_compute; reflexivity|].
@@ -1935,9 +1937,9 @@ Definition c17_irr_bit (e : ev) : bool := N.testbit (estep e) 4.
 
 Theorem c17_exact_step_needed :
   exists target incl maxhold l,
-    ~ suffix_of_input (fun e => c17_irr_bit e && T_num target e) (I_irrnum target incl) l
-        (fw_of (irrnum_gate_step target maxhold) (g_init incl) l) /\
-    run (irrnum_gate_step target maxhold) (g_init incl) l = map (fun _ => Hold) l.
+    ~ suffix_of_input (fun e => c17_irr_bit e && T_num target e) (I_irrnum 0 target incl) l
+        (fw_of (irrnum_gate_step 0 target maxhold) (g_init incl) l) /\
+    run (irrnum_gate_step 0 target maxhold) (g_init incl) l = map (fun _ => Hold) l.
 Proof.
   exists 5, true, 1%Z, [c17_newirr 5; c17_newirr 6; c17_newirr 7; c17_newirr 8].
   split; [|vm_compute; reflexivity].
@@ -2005,7 +2007,7 @@ Theorem c17_holdoff_relevant_only_needed :
   exists target maxhold l j,
     (forall k x, (k <= j)%nat -> nth_error l k = Some x -> T_irrnum target x = false) /\
     (held always l j > maxhold)%Z /\ maxhold <> 0%Z /\
-    nth_error (run (irrnum_gate_step target maxhold) (g_init true) l) j = Some Hold.
+    nth_error (run (irrnum_gate_step 0 target maxhold) (g_init true) l) j = Some Hold.
 Proof.
   exists 100, 1%Z, [c17_new 1; c17_new 2; c17_new 3; c17_new 4; c17_new 5], 4%nat.
   split.
